@@ -93,6 +93,8 @@ T_Stmt ==
                         /\ Same
                      \/ /\ KF_C05_RowByRowApplyR(r, Refused, Gn)
                         /\ KF("KF_C05_RowByRowApply")
+                     \/ /\ KF_C05_SetItemsAppliedR(r, Refused, Gn)
+                        /\ KFs({"KF_C05_SetItemsApplied"} \cup (IF r.at > 1 THEN {"KF_C05_RowByRowApply"} ELSE {}))
           /\ CheckProbes => ProbesOK(Ev.obs, Gn)
 
 TInit == GInit /\ TBInit
